@@ -60,11 +60,15 @@ Definition atoi_ok (s : str) : bool :=
   | [] => false
   | c :: r => if (c =? 43) || (c =? 45) then nonempty r && forallb is_digit r else forallb is_digit s
   end.
+(* generateUniqueKey splits the FORMATTED key: a name that d2 has to quote (here: it contains the path
+   separator '.') ends in a quote character there, so its last piece is never a numeral *)
+Definition needs_quote (s : str) : bool := existsb (fun c => c =? 46) s.
 Definition strip_index (s : str) : str :=
-  match rsplit s with
-  | Some (a, b) => if atoi_ok b then a else s
-  | None => s
-  end.
+  if needs_quote s then s
+  else match rsplit s with
+       | Some (a, b) => if atoi_ok b then a else s
+       | None => s
+       end.
 
 (* first of  base 2, base 3, ...  that is not taken; fuel = |taken| suffices (Proofs: first_free_fresh) *)
 Fixpoint first_free (base : str) (taken : list str) (i : N) (fuel : nat) : str :=
